@@ -23,7 +23,7 @@ type biStep struct {
 
 var biModelled = []string{"SetInt64", "SetUint64", "SetDec", "SetMath", "Set", "Abs", "Neg", "Add", "Sub", "Mul", "Quo", "Rem",
 	"QuoRem", "Lsh", "Rsh", "Sqrt"}
-var biMirrorOnly = []string{"Div", "Mod", "DivMod", "And", "Or", "Xor", "AndNot", "Not", "Exp", "GCD", "SetBit"}
+var biMirrorOnly = []string{"Div", "Mod", "DivMod", "And", "Or", "Xor", "AndNot", "Not", "Exp", "GCD", "GCDx", "GCDy", "SetBit"}
 
 func biState(z *apd.BigInt) string {
 	inline, ns, w0, w1 := apd.VerifBigIntState(z)
@@ -190,6 +190,25 @@ func runBigInt(prog []biStep) (line string) {
 		case "GCD":
 			z.GCD(nil, nil, x, y)
 			mz.GCD(nil, nil, mx, my)
+		case "GCDx", "GCDy":
+			// one Bezout cofactor into register ri (distinct from d, a, b); a zero cofactor is a plain zero
+			// (math/big itself can leave the sign set on it: x for GCD(-6, 3))
+			var ri int
+			fmt.Sscan(s.arg, &ri)
+			m2 = ri
+			g, cf := new(big.Int), new(big.Int)
+			if s.op == "GCDx" {
+				z.GCD(&regs[ri], nil, x, y)
+				g.GCD(cf, nil, mx, my)
+			} else {
+				z.GCD(nil, &regs[ri], x, y)
+				g.GCD(nil, cf, mx, my)
+			}
+			if cf.Sign() == 0 {
+				cf.SetInt64(0)
+			}
+			mir[s.d].Set(g)
+			mir[ri].Set(cf)
 		case "SetBit":
 			z.SetBit(x, int(argv.Int64()), uint(s.b&1))
 			mz.SetBit(mx, int(argv.Int64()), uint(s.b&1))
@@ -333,6 +352,34 @@ func (r *rng) genBigIntProg() []biStep {
 			z.Exp(x, y, nil)
 		case "GCD":
 			z.GCD(nil, nil, x, y)
+		case "GCDx", "GCDy":
+			ri := -1
+			for k := 0; k < 4; k++ {
+				if k != s.d && k != s.a && k != s.b {
+					ri = k
+				}
+			}
+			if ri < 0 {
+				continue
+			}
+			if r.coin(40) && y.Sign() != 0 { // a multiple of b: the cofactor of a is zero
+				x.Mul(y, big.NewInt(int64(r.rangeI(-9, 9))))
+				mir[s.a].Set(x)
+				prog = append(prog, biStep{op: "SetMath", d: s.a, a: s.a, b: s.b, arg: x.String()})
+				x, y = new(big.Int).Set(mir[s.a]), new(big.Int).Set(mir[s.b])
+			}
+			s.arg = fmt.Sprint(ri)
+			g, cf := new(big.Int), new(big.Int)
+			if s.op == "GCDx" {
+				g.GCD(cf, nil, x, y)
+			} else {
+				g.GCD(nil, cf, x, y)
+			}
+			if cf.Sign() == 0 {
+				cf.SetInt64(0)
+			}
+			mir[s.d].Set(g)
+			mir[ri].Set(cf)
 		case "SetBit":
 			k := r.pick([]int{0, 1, 63, 64, 127, 128, 129})
 			s.arg = fmt.Sprint(k)
